@@ -251,22 +251,42 @@ def sweep(run: Run):
     from primaite.utils.validation.port import PORT_LOOKUP
     router = nodes["router_1"]
     listed_ip, unlisted_ip = run.opts["ip_list"][0], "10.9.9.9"
+    ip_list, wc_list = run.opts["ip_list"], run.opts["wildcard_list"]
+    port_ids = {PORT_LOOKUP[n]: i + 2 for i, n in enumerate(run.opts["port_list"])}
+    proto_ids = {PROTOCOL_LOOKUP[n]: i + 2 for i, n in enumerate(run.opts["protocol_list"])}
+    port_pairs = ((None, None), (PORT_LOOKUP["HTTP"], PORT_LOOKUP["HTTP"]), (PORT_LOOKUP["HTTP"], PORT_LOOKUP["POSTGRES_SERVER"]),
+                  (PORT_LOOKUP["SSH"], PORT_LOOKUP["HTTP"]), (None, PORT_LOOKUP["POSTGRES_SERVER"]))
     for pos in range(0, run.opts["num_rules"]):
         old = router.acl._acl[pos]
         for action in ACLAction:
             for sip, dip in itertools.product((None, listed_ip, unlisted_ip), repeat=2):
-                for wc in (None, run.opts["wildcard_list"][0], "0.0.255.255"):
-                    for port in (None, PORT_LOOKUP["HTTP"], PORT_LOOKUP["SSH"]):
+                for swc, dwc in ((None, None), (wc_list[0], "0.0.255.255"), ("0.0.255.255", wc_list[0])):
+                    for sport, dport in port_pairs:
                         for proto in (None, PROTOCOL_LOOKUP["TCP"]):
                             case = "acl.unlisted_address" if unlisted_ip in (sip, dip) else "acl"
                             router.acl._acl[pos] = None
+                            swc_, dwc_ = (swc if sip else None), (dwc if dip else None)
                             try:
-                                router.acl.add_rule(action=action, protocol=proto, src_ip_address=sip, src_wildcard_mask=wc if sip else None,
-                                                    dst_ip_address=dip, dst_wildcard_mask=wc if dip else None, src_port=port, dst_port=port, position=pos)
+                                router.acl.add_rule(action=action, protocol=proto, src_ip_address=sip, src_wildcard_mask=swc_,
+                                                    dst_ip_address=dip, dst_wildcard_mask=dwc_, src_port=sport, dst_port=dport, position=pos)
                             except Exception as e:
                                 run.fail(case, f"add_rule at {pos}", f"add_rule raised {type(e).__name__}: {e}")
                                 continue
-                            run.observe(case, f"router_1 rule {pos}: {action.name} proto={proto} src={sip}/{wc} dst={dip}/{wc} ports={port}")
+
+                            def truth(obs, pos=pos, action=action, sip=sip, dip=dip, swc_=swc_, dwc_=dwc_, sport=sport, dport=dport, proto=proto):
+                                if unlisted_ip in (sip, dip):
+                                    return None
+                                want = {"position": pos, "permission": action.value,
+                                        "source_ip_id": 1 if sip is None else ip_list.index(sip) + 2,
+                                        "source_wildcard_id": 1 if swc_ not in wc_list else wc_list.index(swc_) + 2,
+                                        "source_port_id": port_ids.get(sport, 1),
+                                        "dest_ip_id": 1 if dip is None else ip_list.index(dip) + 2,
+                                        "dest_wildcard_id": 1 if dwc_ not in wc_list else wc_list.index(dwc_) + 2,
+                                        "dest_port_id": port_ids.get(dport, 1),
+                                        "protocol_id": proto_ids.get(proto, 1)}
+                                got = obs["NODES"]["ROUTER0"]["ACL"][pos]
+                                return None if got == want else f"router_1 ACL slot {pos}: observed {got}, rule encodes as {want}"
+                            run.observe(case, f"router_1 rule {pos}: {action.name} proto={proto} src={sip}/{swc_}:{sport} dst={dip}/{dwc_}:{dport}", truth)
         router.acl._acl[pos] = old
 
     # 7. user sessions
@@ -307,6 +327,78 @@ def sweep(run: Run):
         net.nodes[uid] = node
 
 
+def firewall_sweep(cases_sink):
+    """Second scenario (tests/assets/configs/firewall_actions_network.yaml with the firewall added to the observed nodes):
+    a distinct rule is placed in each of the firewall's six ACLs in turn; every one of the six observed blocks must be a
+    member of the space and must encode its OWN list."""
+    import primaite
+    from primaite.simulator.network.hardware.nodes.network.router import ACLAction
+    from primaite.utils.validation.ip_protocol import PROTOCOL_LOOKUP
+    from primaite.utils.validation.port import PORT_LOOKUP
+    root = os.path.dirname(os.path.dirname(os.path.dirname(primaite.__file__)))
+    path = os.path.join(root, "tests", "assets", "configs", "firewall_actions_network.yaml")
+    if not os.path.exists(path):  # dev runs against a scratch copy of src/ only: the scenario file is the repository's
+        path = "/repo/tests/assets/configs/firewall_actions_network.yaml"
+    if not os.path.exists(path):
+        cases_sink.setdefault("firewall", {"name": "firewall", "checked": 0, "counterexample": None})
+        return
+    cfg = yaml.safe_load(open(path))
+    ag = [a for a in cfg["agents"] if a["type"] == "proxy-agent"][0]
+    opts = ag["observation_space"]["options"]["components"][0]["options"]
+    opts["firewalls"] = [{"hostname": "firewall"}]
+    ag["reward_function"] = {"reward_components": [{"type": "dummy"}]}
+    cfg["agents"] = [ag]
+    game = PrimaiteGame.from_config(copy.deepcopy(cfg))
+    om = game.agents[ag["ref"]].observation_manager
+    space = om.space
+    fw = game.simulation.network.get_node_by_hostname("firewall")
+    blocks = {("INTERNAL", "INBOUND"): fw.internal_inbound_acl, ("INTERNAL", "OUTBOUND"): fw.internal_outbound_acl,
+              ("DMZ", "INBOUND"): fw.dmz_inbound_acl, ("DMZ", "OUTBOUND"): fw.dmz_outbound_acl,
+              ("EXTERNAL", "INBOUND"): fw.external_inbound_acl, ("EXTERNAL", "OUTBOUND"): fw.external_outbound_acl}
+    port_ids = {PORT_LOOKUP[n]: i + 2 for i, n in enumerate(opts["port_list"])}
+    proto_ids = {PROTOCOL_LOOKUP[n]: i + 2 for i, n in enumerate(opts["protocol_list"])}
+    ip_list, wc_list = opts["ip_list"], opts["wildcard_list"]
+    cs = cases_sink.setdefault("firewall", {"name": "firewall", "checked": 0, "counterexample": None})
+
+    def encode(acl, pos):
+        r = acl._acl[pos]
+        if r is None:
+            return {"position": pos, "permission": 0, "source_ip_id": 0, "source_wildcard_id": 0, "source_port_id": 0, "dest_ip_id": 0,
+                    "dest_wildcard_id": 0, "dest_port_id": 0, "protocol_id": 0}
+        ip = lambda a: 1 if a is None else ip_list.index(str(a)) + 2  # noqa: E731
+        wc = lambda w: 1 if w is None or str(w) not in wc_list else wc_list.index(str(w)) + 2  # noqa: E731
+        return {"position": pos, "permission": r.action.value, "source_ip_id": ip(r.src_ip_address), "source_wildcard_id": wc(r.src_wildcard_mask),
+                "source_port_id": port_ids.get(r.src_port, 1), "dest_ip_id": ip(r.dst_ip_address), "dest_wildcard_id": wc(r.dst_wildcard_mask),
+                "dest_port_id": port_ids.get(r.dst_port, 1), "protocol_id": proto_ids.get(r.protocol, 1)}
+    variants = [dict(action=ACLAction.DENY, protocol=PROTOCOL_LOOKUP["TCP"], src_ip_address=ip_list[0], src_wildcard_mask=wc_list[0], dst_port=PORT_LOOKUP["HTTP"]),
+                dict(action=ACLAction.PERMIT, protocol=PROTOCOL_LOOKUP["UDP"], dst_ip_address=ip_list[0], src_port=PORT_LOOKUP["POSTGRES_SERVER"]),
+                dict(action=ACLAction.DENY, protocol=PROTOCOL_LOOKUP["ICMP"])]
+    for (zone, direction), acl in blocks.items():
+        for pos in (1, 2, 5):
+            for kw in variants:
+                old = acl._acl[pos]
+                acl._acl[pos] = None
+                acl.add_rule(position=pos, **kw)
+                cs["checked"] += 1
+                bad = None
+                try:
+                    obs = om.update(game.get_sim_state())
+                    if MODE == "member":
+                        if not space.contains(obs):
+                            bad = "observation not in the declared space"
+                    else:
+                        for (z2, d2), a2 in blocks.items():
+                            for q in range(opts["num_rules"]):
+                                got = obs["NODES"]["FIREWALL0"]["ACL"][z2][d2][q]
+                                if got != encode(a2, q) and bad is None:
+                                    bad = f"firewall ACL {z2}/{d2} slot {q}: observed {got}, the list holds {encode(a2, q)}"
+                except Exception as e:
+                    bad = f"observation raised {type(e).__name__}: {e}"
+                if bad and cs["counterexample"] is None:
+                    cs["counterexample"] = {"what": f"rule {kw['action'].name}/{kw.get('protocol')} at {zone}/{direction} position {pos}", "detail": bad}
+                acl._acl[pos] = old
+
+
 def node_on(node):
     return node.operating_state.name == "ON"
 
@@ -320,6 +412,7 @@ def main(mode):
     run = Run()
     try:
         sweep(run)
+        firewall_sweep(run.cases)
     except Exception as e:  # the driver itself failed: report as an error, not as a counterexample
         import traceback
         print(json.dumps({"checked": 0, "counterexample": None, "error": f"driver error: {type(e).__name__}: {e}\n{traceback.format_exc(limit=4)}"}))
